@@ -90,10 +90,12 @@ def cases(spec, ctx):
             yield case
         elif kind == "predform":
             target = rng.choice(["P", "Q"])
-            names = ["a", "b", "s"] if target == "P" else ["a", "b"]
+            names = ["a", "b", "s", "flag", "flag"] if target == "P" else ["a", "b"]
+            # (flag=True / flag=False are EQUALITY constraints as well: '' or [] are not == False, 0 is)
             yield {"kind": kind, "world": D.random_world(rng, np_=(3, 6), nq=(3, 6), falsy=True),
-                   "target": target, "fields": [[f, rng.choice([0, 0, 1, "", None, None] if f != "s" else ["", "x", None])]
-                                                for f in rng.sample(names, rng.randint(1, 2))],
+                   "target": target, "fields": [[f, rng.choice([True, False, False] if f == "flag" else
+                                                               [0, 0, 1, "", None, None] if f != "s" else ["", "x", None])]
+                                                for f in dict.fromkeys(rng.sample(names, rng.randint(1, 2)))],
                    "none_at": [rng.randrange(6), rng.randrange(6)],
                    "positional": rng.random() < 0.2, "caching": True}
         elif kind == "flatten":
